@@ -69,8 +69,9 @@ def consts(name):
     if name not in _CONST:
         da = data.dataset(DA)
         c = {'params': param_sets(name), 'preA': da.X.copy(), 'preB': (da.X * np.array([1.0, 2.0, 0.5]) + 0.25).copy(),
-             'bounds': np.array([0.0, 4.0]), 'weights': np.arange(1.0, len(da.quads_idx) + 1)}
-        c['pristine'] = copy.deepcopy({k: c[k] for k in ('params', 'preA', 'preB', 'bounds', 'weights')})
+             'bounds': np.array([0.0, 4.0]), 'weights': np.arange(1.0, len(da.quads_idx) + 1),
+             'calib': {'strategy': 'f_beta', 'beta': 2.0}}
+        c['pristine'] = copy.deepcopy({k: c[k] for k in ('params', 'preA', 'preB', 'bounds', 'weights', 'calib')})
         c['dig'] = digest(c['pristine'])
         _CONST[name] = c
     return _CONST[name]
@@ -82,6 +83,8 @@ def fit_call(name, est, ds, form, c):
     kw = {}
     if name in ('ITML', 'ITML_Supervised') and ds.name.split('~')[0] == DA:
         kw['bounds'] = c['bounds']
+    if name in zoo.PAIRS:
+        kw['calibration_params'] = c['calib']
     if name == 'LSML' and ds.name.split('~')[0] == DA:
         kw['weights'] = c['weights']
     return args, kw
@@ -272,8 +275,8 @@ def invariant_factory(name):
         e = out.get('exc')
         site = name + '.' + ev
         # --- (ii) arguments / hyper-parameter objects unmodified
-        if digest({k: c[k] for k in ('params', 'preA', 'preB', 'bounds', 'weights')}) != c['dig']:
-            changed = [k for k in ('params', 'preA', 'preB', 'bounds', 'weights') if digest(c[k]) != digest(c['pristine'][k])]
+        if digest({k: c[k] for k in ('params', 'preA', 'preB', 'bounds', 'weights', 'calib')}) != c['dig']:
+            changed = [k for k in ('params', 'preA', 'preB', 'bounds', 'weights', 'calib') if digest(c[k]) != digest(c['pristine'][k])]
             v.append(V(site, 'mutates_hyperparameter', 'array passed as %s was modified in place' % changed, tr + changed))
             for k in changed:                      # restore so that later transitions are judged on their own
                 c[k] = copy.deepcopy(c['pristine'][k])
